@@ -6,6 +6,7 @@ import GoZero.Extracted.C14
 import GoZero.C14.TieSem
 import GoZero.C14.Proofs
 namespace GoZero.C14.Tie
+set_option linter.unusedSimpArgs false
 open GoZero.C14 GoZero.C14.TieSem
 open GoZero.Extracted.C14
 
@@ -26,9 +27,9 @@ theorem tie_transactOnConn_sem (f : Faults) (b : Body) :
   generalize (runBody b).2 = out
   obtain ⟨bg, cm, rb, bc, cp, rp⟩ := f
   cases hg : Faults.givesUp ⟨bg, cm, rb, bc, cp, rp⟩ <;>
-  cases bg <;> cases cm <;> cases rb <;> cases cp <;> cases rp <;> cases out <;>
+  cases bg <;> cases cp <;> cases rp <;> cases out <;>
     simp [transactOnConnBlk, run, outcome, assign, doInit, evalCond, doRet, callBody, fmtErr, argVal, Err.of, hg,
-      badPrefix_append]
+      badPrefix_append] <;> cases cm <;> cases rb <;> simp
 
 /-- the tree carries one of the two analysed versions of `transactOnConn`: the pinned one or the one with
 fixes/C14-commit-on-goexit-or-nil-panic.patch applied -/
